@@ -29,6 +29,19 @@ done
 echo "$i" > "$PROBE_OUT/count"
 `
 
+var probeOnce sync.Once
+var probePath string
+
+func sharedProbe(r *Run) string {
+	probeOnce.Do(func() {
+		probePath = filepath.Join(r.Dir, "probe.sh")
+		if err := os.WriteFile(probePath, []byte(probeScript), 0o755); err != nil {
+			Fatal("probe script: %v", err)
+		}
+	})
+	return probePath
+}
+
 type wrapObs struct {
 	Exec bool
 	Argv []map[string]any
@@ -57,12 +70,21 @@ func runWrapper(r *Run, fs map[string]fsx.Entry, args []string, kubectl bool) (*
 			os.WriteFile(filepath.Join(base, p), []byte("not a layer: "+p+"\n"), 0o644)
 		}
 	}
+	// The probe script is written ONCE per run, before any child process exists,
+	// and only linked into each scenario: writing an executable in a process that
+	// forks concurrently lets another child inherit the write descriptor, and the
+	// exec of the script then fails with ETXTBSY ("text file busy").
+	probe := sharedProbe(r)
 	var argv0 string
 	if kubectl {
-		os.WriteFile(filepath.Join(bin, "kubectl"), []byte(probeScript), 0o755)
+		if err := os.Symlink(probe, filepath.Join(bin, "kubectl")); err != nil {
+			return nil, err
+		}
 		argv0 = filepath.Join(binDir(), "kubectl-bkl")
 	} else {
-		os.WriteFile(filepath.Join(bin, "probe"), []byte(probeScript), 0o755)
+		if err := os.Symlink(probe, filepath.Join(bin, "probe")); err != nil {
+			return nil, err
+		}
 		argv0 = filepath.Join(bin, "probeb")
 		if err := os.Symlink(filepath.Join(binDir(), "bklb"), argv0); err != nil {
 			return nil, err
@@ -125,7 +147,7 @@ func wrapEvent(fs map[string]fsx.Entry, args []string, obs *wrapObs, via string)
 		argv[i] = a
 	}
 	return J(map[string]any{"ev": "Wrap", "fs": efs, "cwd": "/w", "args": args, "exec": obs.Exec, "argv": argv,
-		"exit": obs.Res.Exit, "via": via})
+		"exit": obs.Res.Exit, "via": via, "stderr": trunc(string(obs.Res.Stderr), 300)})
 }
 
 var wrapFs = map[string]fsx.Entry{
@@ -133,6 +155,7 @@ var wrapFs = map[string]fsx.Entry{
 	"/w/service.test.toml": {Kind: "file", Docs: []tv.T{tv.FromGo(map[string]any{"port": 8080, "debug": true})}},
 	"/w/broken.yaml":       {Kind: "file", Docs: []tv.T{tv.FromGo(map[string]any{"need": "$required"})}},
 	"/w/multi.json":        {Kind: "file", Docs: []tv.T{tv.FromGo(map[string]any{"a": 1}), tv.FromGo(map[string]any{"b": []any{"x", ""}})}},
+	"/w/sub/service.yaml":  {Kind: "file", Docs: []tv.T{tv.FromGo(map[string]any{"name": "sub", "zone": 2})}},
 	"/w/notes.txt":         {Kind: "other"},
 	"/w/conf.ini":          {Kind: "other"},
 }
@@ -253,6 +276,7 @@ func replayWrap(r *Run, v *wrapVector) string {
 }
 
 func C20(r *Run) {
+	sharedProbe(r) // before the first child process is started
 	st := modelWrap(r, r.Pick(2, 3))
 	r.Logf("model: %d argument vectors replayed", st.Replayed)
 	g := gen.New(r.Seed*899809363 + 20)
@@ -276,11 +300,13 @@ func C20(r *Run) {
 		fs["/w/readme.md"] = fsx.Entry{Kind: "other"}
 		fs["/w/data.csv"] = fsx.Entry{Kind: "other"}
 		fs["/w/sub/keep.txt"] = fsx.Entry{Kind: "other"} // so that sub/../x resolves for the kernel as it does lexically
+		// the same base name in another directory, with other content
+		fs["/w/sub/app."+e1] = fsx.Entry{Kind: "file", Docs: []tv.T{tv.FromGo(map[string]any{"name": "inner", "where": g.N(9)})}}
 		g.NullP = saveN
 		pool := []string{"-v", "--context=prod", "--file=app." + e1, "apply", "-f", "readme.md", "data.csv", "app." + e1, "app.dev." + e2,
 			"app.dev." + g.Pick([]string{"json", "yaml", "toml", "yml", "jsonl", "json-pretty"}), "app." + g.Pick(exts),
 			"two." + g.Pick([]string{"json", "yaml", "yml", "jsonl"}), "nothere.yaml", "app.dev.ini", "--", "-", "app", ".yaml", "x=y.json",
-			"./app." + e1, "sub/../app.dev." + e2}
+			"./app." + e1, "sub/../app.dev." + e2, "sub/app." + e1, "sub/app." + e1}
 		if g.P(0.25) {
 			pool = append(pool, "bad."+e3, "bad."+g.Pick([]string{"json", "yaml"}))
 		}
@@ -315,5 +341,5 @@ func C20(r *Run) {
 	wg.Wait()
 	finishEvalFamily(r, "C20", st, sessions,
 		[]string{"OnlyBklFilesChange", "UntouchedByteForByte", "FailingFileMeansNoExec"},
-		"model: every argument vector of length <= MaxArgs over 16 argument kinds (flags, --opt=value, words, non-bkl files, layer files, virtual names of four formats, unsupported extensions, failing and missing layers, ./ spellings) run through the real bklb (as probeb) and kubectl-bkl with a probe program on PATH; driver: random directories (layers in mixed formats) and random vectors of 0-8 arguments over 21+ kinds; substituted files are decoded by the independent decoder of the argument's extension and compared with the specification's evaluation")
+		"model: every argument vector of length <= MaxArgs over 17 argument kinds (flags, --opt=value, words, non-bkl files, layer files, virtual names of four formats, unsupported extensions, failing and missing layers, ./ spellings, the same base name in two directories) run through the real bklb (as probeb) and kubectl-bkl with a probe program on PATH; driver: random directories (layers in mixed formats) and random vectors of 0-8 arguments over 21+ kinds; substituted files are decoded by the independent decoder of the argument's extension and compared with the specification's evaluation")
 }
